@@ -381,6 +381,33 @@ def rules(rep, m):
             rep.finding(r8, fd["function"], fd["construct"], fd["message"], where=fd["where"])
 
 
+    # R-C10-9 ------------------------------------------------------------
+    r9 = rep.rule("R-C10-9", "containers may grow at any moment: growth copies every slot of the old heap including the two "
+                  "scratch slots (slot 0 is read after growth by the current-event query and the timer wake-up); and every "
+                  "event addressed to an ending process is cancelled on every path of the unwinding routine, so a finished "
+                  "process is never resumed (release assertion)", floor=2)
+    okg, desc = c02.grow_copies_whole_heap(m)
+    r9.instance("growth copies the whole old heap: %s (%s)" % (okg, desc))
+    if not okg:
+        rep.finding(r9, "hashheap_grow", "grow:partial-copy", "growth copies %s of the old heap: slot 0 (most recently dequeued "
+                    "entry) is left uninitialised, so the timer wake-up removes the wrong awaitable and a later priority "
+                    "change aborts on a stale handle" % desc, where="src/cmi_hashheap.c")
+        r9.fail()
+    else:
+        r9.ok()
+    from . import c09
+    ca = m.need("cmi_process_cancel_awaiteds")
+    okp = c09.unwinding_cancels_events_on_all_paths(m, ca, ca.params[0]["name"])
+    r9.instance("unwinding cancels all events of the process on every path: %s" % okp)
+    if not okp:
+        rep.finding(r9, ca.name, "unwind:events-left", "a path through the unwinding routine returns without cancelling the "
+                    "events addressed to the process: an interrupt or resume still pending when the process ends later "
+                    "resumes a finished process (library abort / use after free)", where=m.rel(ca.where))
+        r9.fail()
+    else:
+        r9.ok()
+
+
 def run(tier="quick"):
     models = common.load_models(tier)
     rep = Report(PID, tier, models[0])
